@@ -847,8 +847,16 @@ impl FromStr for Instruction {
     fn from_str(s: &str) -> Result<Self, Self::Err> {
         let input = LocatedSpan::new(s);
         let lexed = lex(input).map_err(|e| ParseInstructionError::Parse(e.to_string()))?;
-        let instructions =
-            parse_instructions(&lexed).map_err(|e| ParseInstructionError::Parse(e.to_string()))?;
+        // Convert the internal error (which carries the remaining token slice) into the public
+        // parse error before formatting it: printing the internal form is quadratic in the input.
+        let instructions = parse_instructions(&lexed).map_err(|e| {
+            ParseInstructionError::Parse(
+                match crate::parser::ParseError::from_nom_internal_err(e) {
+                    nom::Err::Error(error) | nom::Err::Failure(error) => error.to_string(),
+                    nom::Err::Incomplete(_) => "incomplete input".to_owned(),
+                },
+            )
+        })?;
         if instructions.1.len() != 1 {
             return Err(ParseInstructionError::ZeroOrMany(instructions.1.len()));
         }
